@@ -17,6 +17,8 @@ namespace AsherahVerif.Env
 @[simp] theorem keyObj_run (o : Nat) (w : World) : keyObj o w = (.ok (keyAt w o), w) := rfl
 @[simp] theorem getCache_run (c : Nat) (w : World) : getCache c w = (.ok (cacheAt w c), w) := rfl
 theorem setCache_run (c : Nat) (kc : KeyCache) (w : World) : setCache c kc w = (.ok (), (setCache c kc w).2) := rfl
+theorem setCache_bind_run {β : Type} (c : Nat) (kc : KeyCache) (f : Unit → M β) (w : World) :
+    (setCache c kc >>= f) w = f () (setCache c kc w).2 := rfl
 theorem newKeyObj_run (c : Int) (r : Bool) (m s : Nat) (w : World) :
     newKeyObj c r m s w = (.ok w.keys.length, { w with keys := w.keys ++ [{ created := c, revoked := r, mat := m, sec := s }] }) := rfl
 
@@ -138,13 +140,20 @@ structure SV (w w' : World) : Prop where
   keys : w'.keys = w.keys
   faults : w'.faults = w.faults
   log : w'.log = w.log
+  facs : w'.facs = w.facs
+  sessions : w'.sessions = w.sessions
+  secrets : w'.secrets = w.secrets
+  bufs : w'.bufs = w.bufs
+  mats : w'.mats = w.mats
+  nonces : w'.nonces = w.nonces
   len : w'.caches.length = w.caches.length
   view : ∀ c, entsOf w' c = entsOf w c ∧ latestOf w' c = latestOf w c ∧ modeOf w' c = modeOf w c
 
 instance : RT SV where
-  refl w := ⟨rfl, rfl, rfl, rfl, rfl, rfl, fun _ => ⟨rfl, rfl, rfl⟩⟩
+  refl w := ⟨rfl, rfl, rfl, rfl, rfl, rfl, rfl, rfl, rfl, rfl, rfl, rfl, fun _ => ⟨rfl, rfl, rfl⟩⟩
   trans h1 h2 := ⟨h2.now.trans h1.now, h2.store.trans h1.store, h2.keys.trans h1.keys, h2.faults.trans h1.faults,
-    h2.log.trans h1.log, h2.len.trans h1.len,
+    h2.log.trans h1.log, h2.facs.trans h1.facs, h2.sessions.trans h1.sessions, h2.secrets.trans h1.secrets,
+    h2.bufs.trans h1.bufs, h2.mats.trans h1.mats, h2.nonces.trans h1.nonces, h2.len.trans h1.len,
     fun c => ⟨(h2.view c).1.trans (h1.view c).1, (h2.view c).2.1.trans (h1.view c).2.1,
       (h2.view c).2.2.trans (h1.view c).2.2⟩⟩
 
@@ -156,7 +165,7 @@ theorem SV.keyAt {w w' : World} (h : SV w w') (o : Nat) : keyAt w' o = keyAt w o
 
 theorem setCache_sv (c : Nat) (kc : KeyCache) (w : World) (h1 : kc.mode = (cacheAt w c).mode)
     (h2 : kc.ents = (cacheAt w c).ents) (h3 : kc.latest = (cacheAt w c).latest) : SV w (setCache c kc w).2 :=
-  ⟨rfl, rfl, rfl, rfl, rfl, by show (setAt w.caches c fun _ => kc).length = _; rw [setAt_length],
+  ⟨rfl, rfl, rfl, rfl, rfl, rfl, rfl, rfl, rfl, rfl, rfl, by show (setAt w.caches c fun _ => kc).length = _; rw [setAt_length],
    setCache_same_view c kc w h1 h2 h3⟩
 
 /-! ### the invariant -/
@@ -311,8 +320,94 @@ instance : RT CW where
     exact ⟨k2, e2, r2.trans r1⟩, h2.store.trans h1.store, fun c => (h2.mode c).trans (h1.mode c), h2.len.trans h1.len⟩
 
 theorem CW.of_sv {w w' : World} (h : SV w w') : CW w w' :=
-  ⟨Ext.of_eq h.now (by sorry) (by sorry) h.store (by sorry) h.keys (by sorry) (by rw [h.len]; exact Nat.le_refl _) (by sorry) (by sorry),
+  ⟨Ext.of_eq h.now h.facs h.sessions h.store h.secrets h.keys h.bufs (by rw [h.len]; exact Nat.le_refl _)
+     (by rw [h.mats]; exact Nat.le_refl _) (by rw [h.nonces]; exact Nat.le_refl _),
    fun hf => h.faults ▸ hf, fun i k hk => ⟨k, h.keys ▸ hk, rfl⟩, h.store, fun c => (h.view c).2.2, h.len⟩
+
+/-- `SS`: the metastore is untouched. -/
+def SS (w w' : World) : Prop := w'.store = w.store
+instance : RT SS := ⟨fun _ => rfl, fun h1 h2 => Eq.trans h2 h1⟩
+
+theorem keysSet_ss (o : Nat) (f : KeyObj → KeyObj) :
+    Resp SS (modify fun w => { w with keys := setAt w.keys o f }) := fun w => rfl
+theorem secretClose_ss (s : Nat) : Resp SS (secretClose s) := fun w => rfl
+theorem keyIncr_ss (o : Nat) : Resp SS (keyIncr o) := fun w => rfl
+theorem keyWrap_ss (o : Nat) : Resp SS (keyWrap o) := fun w => rfl
+theorem keyCloseRaw_ss (o : Nat) : Resp SS (keyCloseRaw o) := by
+  unfold keyCloseRaw
+  resp_auto [secretClose_ss]
+  exact keysSet_ss o _
+theorem keyRelease_ss (o : Nat) : Resp SS (keyRelease o) := by
+  unfold keyRelease
+  apply Resp.bind
+  · exact keysSet_ss o _
+  · resp_auto [keyCloseRaw_ss]
+theorem releaseAll_ss (l : List Nat) : Resp SS (releaseAll l) := by
+  induction l with
+  | nil => exact Resp.pure _
+  | cons v rest ih => unfold releaseAll; resp_auto [keyRelease_ss]
+
+/-- a step below the cache layer that leaves the store alone. -/
+theorem CW.of_q0 {w w' : World} (hext : Ext w w') (hq : Q0 w w') (hs : w'.store = w.store) : CW w w' :=
+  ⟨hext, hq.faults, hq.rev, hs, fun c => by unfold modeOf cacheAt; rw [hq.caches], by rw [hq.caches]⟩
+
+theorem keyRelease_cw (o : Nat) (w : World) : CW w (keyRelease o w).2 :=
+  CW.of_q0 (keyRelease_ext o w) (keyRelease_q0 o w) (keyRelease_ss o w)
+theorem releaseAll_cw (l : List Nat) (w : World) : CW w (releaseAll l w).2 :=
+  CW.of_q0 (releaseAll_ext l w) (releaseAll_q0 l w) (releaseAll_ss l w)
+theorem keyWrap_cw (o : Nat) (w : World) : CW w (keyWrap o w).2 :=
+  CW.of_q0 (keyWrap_ext o w) (keyWrap_q0 o w) (keyWrap_ss o w)
+theorem keyIncr_cw (o : Nat) (w : World) : CW w (keyIncr o w).2 :=
+  CW.of_q0 (keyIncr_ext o w) (keyIncr_q0 o w) (keyIncr_ss o w)
+theorem keyCloseRaw_cw (o : Nat) (w : World) : CW w (keyCloseRaw o w).2 :=
+  CW.of_q0 (keyCloseRaw_ext o w) (keyCloseRaw_q0 o w) (keyCloseRaw_ss o w)
+
+theorem CW.views {w w' : World} (hq : Q0 w w') (c : Nat) :
+    entsOf w' c = entsOf w c ∧ latestOf w' c = latestOf w c := by
+  unfold entsOf latestOf cacheAt; rw [hq.caches]; exact ⟨rfl, rfl⟩
+
+/-- replacing the cache at `c` by one with the same mode and aliases. -/
+theorem setCache_cw (c : Nat) (kc : KeyCache) (w : World) (h1 : kc.mode = (cacheAt w c).mode) :
+    CW w (setCache c kc w).2 ∧
+      (∀ c', latestOf (setCache c kc w).2 c' = if c' = c ∧ c < w.caches.length then kc.latest else latestOf w c') ∧
+      (∀ c', entsOf (setCache c kc w).2 c' = if c' = c ∧ c < w.caches.length then kc.ents else entsOf w c') := by
+  refine ⟨⟨setCache_ext c kc w, id, fun i k h => ⟨k, h, rfl⟩, rfl, ?_, ?_⟩, ?_, ?_⟩
+  · intro c'
+    unfold modeOf; rw [cacheAt_setCache]
+    split
+    · rename_i h; rw [h.1]; exact h1
+    · rfl
+  · show (setAt w.caches c fun _ => kc).length = _; rw [setAt_length]
+  · intro c'; unfold latestOf; rw [cacheAt_setCache]; split <;> rfl
+  · intro c'; unfold entsOf; rw [cacheAt_setCache]; split <;> rfl
+
+theorem setCache_release_spec (c : Nat) (kc : KeyCache) (vs : List Nat) (w : World) (m : KeyMeta) (e : CEntry)
+    (h1 : kc.mode = (cacheAt w c).mode) (h3 : kc.latest = (cacheAt w c).latest)
+    (h2 : ∀ p ∈ kc.ents, p ∈ entsOf w c ∨ p = (m, e)) (hns : modeOf w c ≠ .simple) :
+    CW w ((setCache c kc >>= fun _ => releaseAll vs) w).2 ∧
+      (∀ c', latestOf ((setCache c kc >>= fun _ => releaseAll vs) w).2 c' = latestOf w c') ∧
+      (∀ c' p, p ∈ entsOf ((setCache c kc >>= fun _ => releaseAll vs) w).2 c' → p ∈ entsOf w c' ∨ (c' = c ∧ p = (m, e))) ∧
+      (modeOf w c = .simple → c < w.caches.length →
+        entsOf ((setCache c kc >>= fun _ => releaseAll vs) w).2 c = assocSet (entsOf w c) m e) ∧
+      (∀ c', c' ≠ c → entsOf ((setCache c kc >>= fun _ => releaseAll vs) w).2 c' = entsOf w c') := by
+  rw [setCache_bind_run]
+  obtain ⟨hcw, hl, he⟩ := setCache_cw c kc w h1
+  generalize (setCache c kc w).2 = w1 at hcw hl he ⊢
+  have hr := releaseAll_cw vs w1
+  have hv := fun c => CW.views (releaseAll_q0 vs w1) c
+  refine ⟨RT.trans hcw hr, ?_, ?_, fun h => absurd h hns, ?_⟩
+  · intro c'; rw [(hv c').2, hl]; split
+    · rename_i h; rw [h.1]; exact h3
+    · rfl
+  · intro c' p hp
+    rw [(hv c').1, he] at hp
+    split at hp
+    · rename_i h
+      rcases h2 p hp with h' | h'
+      · left; rw [h.1]; exact h'
+      · right; exact ⟨h.1, h'⟩
+    · left; exact hp
+  · intro c' hne; rw [(hv c').1, he]; simp [hne]
 
 theorem cacheSet_spec (c : Nat) (m : KeyMeta) (e : CEntry) (w : World) :
     CW w (cacheSet c m e w).2 ∧ (∀ c', latestOf (cacheSet c m e w).2 c' = latestOf w c') ∧
@@ -321,12 +416,207 @@ theorem cacheSet_spec (c : Nat) (m : KeyMeta) (e : CEntry) (w : World) :
       (∀ c', c' ≠ c → entsOf (cacheSet c m e w).2 c' = entsOf w c') := by
   unfold cacheSet
   simp only [bind_run, getCache_run]
+  have key := setCache_cw c { cacheAt w c with ents := assocSet (cacheAt w c).ents m e } w rfl
+  simp only [] at key
+  revert key
   cases hmode : (cacheAt w c).mode with
-  | never => sorry
-  | simple => sorry
-  | bounded =>
+  | never =>
+    intro _
+    simp only [pure_run]
+    exact ⟨RT.refl w, fun _ => trivial, fun c' p h => Or.inl h, (by intro h; unfold modeOf at h; rw [hmode] at h; cases h), fun _ _ => trivial⟩
+  | simple =>
+    intro key
     simp only []
-    trace_state
-    sorry
+    obtain ⟨hcw, hl, he⟩ := key
+    refine ⟨hcw, ?_, ?_, ?_, ?_⟩
+    · intro c'; rw [hl]; split
+      · rename_i h; rw [h.1]; rfl
+      · rfl
+    · intro c' p hp
+      rw [he] at hp
+      split at hp
+      · rename_i h
+        rcases assocSet_mem hp with h' | h'
+        · left; rw [h.1]; exact h'
+        · right; exact ⟨h.1, h'⟩
+      · left; exact hp
+    · intro _ hlt; rw [he]; simp [hlt]; rfl
+    · intro c' hne; rw [he]; simp [hne]
+  | bounded =>
+    intro _
+    simp only []
+    refine setCache_release_spec c _ _ w m e ?_ ?_ ?_ (by unfold modeOf; rw [hmode]; intro h; cases h)
+    · cases slotOf (cacheAt w c) m <;> first | rfl | exact hmode.symm
+    · cases slotOf (cacheAt w c) m <;> rfl
+    · intro p hp
+      rcases assocSet_mem hp with h | h
+      · left
+        have := foldl_assocDel_mem _ _ h
+        revert this
+        cases slotOf (cacheAt w c) m <;> exact id
+      · right; exact h
+
+/-- a world in which one entry was (over)written and nothing else was added to the caches. -/
+theorem St.write {ρ : RevCtx} {D : List Row → Prop} {t : Int} {w w' : World} (h : St ρ D t w) (hcw : CW w w')
+    (m : KeyMeta) (e : CEntry)
+    (hlat : ∀ c' kid l, assocGet (latestOf w' c') kid = some l → l.kid = kid)
+    (hents : ∀ c' p, p ∈ entsOf w' c' → p ∈ entsOf w c' ∨ p = (m, e))
+    (hg : Good ρ w m e) (hobj : ∀ c2 m2 e2, (m2, e2) ∈ entsOf w c2 → e2.obj = e.obj → m2 = m) : St ρ D t w' := by
+  refine ⟨hcw.ext.now.trans h.now, hcw.faults h.faults, ?_, ?_, hlat, ?_, hcw.store ▸ h.sto⟩
+  · intro c m1 e1 hm
+    rcases hents c _ hm with h1 | h1
+    · exact (h.good c m1 e1 h1).mono hcw.ext hcw.rev
+    · cases h1; exact hg.mono hcw.ext hcw.rev
+  · intro c1 c2 m1 m2 e1 e2 h1 h2 ho
+    rcases hents c1 _ h1 with a | a <;> rcases hents c2 _ h2 with b | b
+    · exact h.objMeta c1 c2 m1 m2 e1 e2 a b ho
+    · cases b; exact hobj c1 m1 e1 a ho
+    · cases a; exact (hobj c2 m2 e2 b ho.symm).symm
+    · cases a; cases b; rfl
+  · intro τ m0 hρ; rw [hcw.ext.now]; exact h.tau τ m0 hρ
+
+/-- the cache key `write` files an entry under. -/
+def writeMeta (w : World) (m : KeyMeta) (e : CEntry) : KeyMeta :=
+  if m.created = 0 then ⟨m.kid, (keyAt w e.obj).created⟩ else m
+
+/-- whether `write` moves the latest alias. -/
+def setsLatest (w : World) (c : Nat) (m : KeyMeta) (e : CEntry) : Bool :=
+  if m.created = 0 then true
+  else match assocGet (latestOf w c) m.kid with
+    | none => true
+    | some l => l.created < (keyAt w e.obj).created
+
+theorem writeMeta_kid (w : World) (m : KeyMeta) (e : CEntry) : (writeMeta w m e).kid = m.kid := by
+  unfold writeMeta; split <;> rfl
+
+/-- the part of `write` after the alias update. -/
+def writeTail (c : Nat) (m' : KeyMeta) (e : CEntry) : M Unit := do
+  let kc ← getCache c
+  let existing := match kc.mode with
+    | .never => none
+    | _ => assocGet kc.ents m'
+  let _ ← cacheGet c m'
+  match existing with
+  | some old => if old.obj ≠ e.obj then keyRelease old.obj
+  | none => pure ()
+  cacheSet c m' e
+
+theorem cacheWrite_eq (c : Nat) (m : KeyMeta) (e : CEntry) (w : World) :
+    cacheWrite c m e w = writeTail c (writeMeta w m e) e
+      (if setsLatest w c m e = true
+       then (setCache c { cacheAt w c with latest := assocSet (latestOf w c) m.kid (writeMeta w m e) } w).2 else w) := by
+  unfold cacheWrite writeTail writeMeta setsLatest
+  simp only [bind_run, keyObj_run, getCache_run, getLatestMeta, latestOf]
+  split
+  · rfl
+  · cases assocGet (cacheAt w c).latest m.kid with
+    | none => rfl
+    | some l =>
+      simp only []
+      by_cases hlt : l.created < (keyAt w e.obj).created
+      · simp only [hlt, decide_true, ↓reduceIte]; rfl
+      · simp only [hlt, decide_false, Bool.false_eq_true, ↓reduceIte]; rfl
+
+theorem keyCloseRaw_ok (o : Nat) (w : World) : (keyCloseRaw o w).1 = .ok () := by
+  unfold keyCloseRaw
+  simp only [bind_run, keyObj_run]
+  split
+  · rfl
+  · rfl
+
+theorem keyRelease_ok (o : Nat) (w : World) : (keyRelease o w).1 = .ok () := by
+  unfold keyRelease
+  simp only [bind_run, modify_run, keyObj_run]
+  split
+  · rfl
+  · exact keyCloseRaw_ok o _
+
+theorem cacheSet_after {w w1 : World} (hcw : CW w w1)
+    (hv : ∀ c, entsOf w1 c = entsOf w c ∧ latestOf w1 c = latestOf w c) (c : Nat) (m : KeyMeta) (e : CEntry) :
+    CW w (cacheSet c m e w1).2 ∧ (∀ c', latestOf (cacheSet c m e w1).2 c' = latestOf w c') ∧
+      (∀ c' p, p ∈ entsOf (cacheSet c m e w1).2 c' → p ∈ entsOf w c' ∨ (c' = c ∧ p = (m, e))) ∧
+      (modeOf w c = .simple → c < w.caches.length → entsOf (cacheSet c m e w1).2 c = assocSet (entsOf w c) m e) ∧
+      (∀ c', c' ≠ c → entsOf (cacheSet c m e w1).2 c' = entsOf w c') := by
+  obtain ⟨a, b, c1, d, f⟩ := cacheSet_spec c m e w1
+  refine ⟨RT.trans hcw a, fun c' => (b c').trans (hv c').2, ?_, ?_, fun c' hne => (f c' hne).trans (hv c').1⟩
+  · intro c' p hp; have := c1 c' p hp; rw [(hv c').1] at this; exact this
+  · intro hm hl
+    rw [← hcw.mode] at hm; rw [← hcw.len] at hl
+    rw [d hm hl, (hv c).1]
+
+theorem writeTail_spec (c : Nat) (m : KeyMeta) (e : CEntry) (w : World) :
+    CW w (writeTail c m e w).2 ∧ (∀ c', latestOf (writeTail c m e w).2 c' = latestOf w c') ∧
+      (∀ c' p, p ∈ entsOf (writeTail c m e w).2 c' → p ∈ entsOf w c' ∨ (c' = c ∧ p = (m, e))) ∧
+      (modeOf w c = .simple → c < w.caches.length → entsOf (writeTail c m e w).2 c = assocSet (entsOf w c) m e) ∧
+      (∀ c', c' ≠ c → entsOf (writeTail c m e w).2 c' = entsOf w c') := by
+  unfold writeTail
+  simp only [bind_run, getCache_run]
+  have sp := cacheGet_spec c m w
+  generalize cacheGet c m w = x at sp ⊢
+  obtain ⟨r, w1⟩ := x
+  obtain ⟨hsv, o, ho, -⟩ := sp
+  simp only at ho hsv; subst ho
+  simp only []
+  have hv1 : ∀ c, entsOf w1 c = entsOf w c ∧ latestOf w1 c = latestOf w c := fun c => ⟨(hsv.view c).1, (hsv.view c).2.1⟩
+  generalize (match (cacheAt w c).mode with | CacheMode.never => none | x => assocGet (cacheAt w c).ents m) = ex
+  cases ex with
+  | none => exact cacheSet_after (CW.of_sv hsv) hv1 c m e
+  | some old =>
+    simp only []
+    split
+    · have hk : keyRelease old.obj w1 = (.ok (), (keyRelease old.obj w1).2) := Prod.ext (keyRelease_ok _ _) rfl
+      simp only [bind_run]
+      rw [hk]
+      simp only []
+      have hcw := keyRelease_cw old.obj w1
+      have hv2 := fun c => CW.views (keyRelease_q0 old.obj w1) c
+      generalize (keyRelease old.obj w1).2 = w2 at hcw hv2 ⊢
+      exact cacheSet_after (RT.trans (CW.of_sv hsv) hcw)
+        (fun c => ⟨(hv2 c).1.trans (hv1 c).1, (hv2 c).2.trans (hv1 c).2⟩) c m e
+    · exact cacheSet_after (CW.of_sv hsv) hv1 c m e
+
+theorem cacheWrite_spec (c : Nat) (m : KeyMeta) (e : CEntry) (w : World) :
+    CW w (cacheWrite c m e w).2 ∧
+      (∀ c', latestOf (cacheWrite c m e w).2 c' =
+        if c' = c ∧ c < w.caches.length ∧ setsLatest w c m e = true
+        then assocSet (latestOf w c) m.kid (writeMeta w m e) else latestOf w c') ∧
+      (∀ c' p, p ∈ entsOf (cacheWrite c m e w).2 c' → p ∈ entsOf w c' ∨ (c' = c ∧ p = (writeMeta w m e, e))) ∧
+      (modeOf w c = .simple → c < w.caches.length →
+        entsOf (cacheWrite c m e w).2 c = assocSet (entsOf w c) (writeMeta w m e) e) ∧
+      (∀ c', c' ≠ c → entsOf (cacheWrite c m e w).2 c' = entsOf w c') := by
+  rw [cacheWrite_eq]
+  by_cases hs : setsLatest w c m e = true
+  · simp only [hs, if_true, and_true]
+    obtain ⟨hcw, hl, he⟩ := setCache_cw c { cacheAt w c with latest := assocSet (latestOf w c) m.kid (writeMeta w m e) } w rfl
+    generalize (setCache c { cacheAt w c with latest := assocSet (latestOf w c) m.kid (writeMeta w m e) } w).2 = w1 at hcw hl he ⊢
+    have he' : ∀ c', entsOf w1 c' = entsOf w c' := by
+      intro c'; rw [he]; split
+      · rename_i h; rw [h.1]; rfl
+      · rfl
+    obtain ⟨a, b, c1, d, f⟩ := writeTail_spec c (writeMeta w m e) e w1
+    refine ⟨RT.trans hcw a, fun c' => (b c').trans (hl c'), ?_, ?_, fun c' hne => (f c' hne).trans (he' c')⟩
+    · intro c' p hp; have := c1 c' p hp; rw [he'] at this; exact this
+    · intro hm hlen
+      rw [← hcw.mode] at hm; rw [← hcw.len] at hlen
+      rw [d hm hlen, he']
+  · simp only [hs, if_false, and_false, Bool.false_eq_true]
+    exact writeTail_spec c (writeMeta w m e) e w
+
+theorem St.cacheWrite {ρ : RevCtx} {D : List Row → Prop} {t : Int} {w : World} (h : St ρ D t w)
+    (c : Nat) (m : KeyMeta) (e : CEntry) (hg : Good ρ w (writeMeta w m e) e)
+    (hobj : ∀ c2 m2 e2, (m2, e2) ∈ entsOf w c2 → e2.obj = e.obj → m2 = writeMeta w m e) :
+    St ρ D t (cacheWrite c m e w).2 := by
+  obtain ⟨hcw, hl, he, -, -⟩ := cacheWrite_spec c m e w
+  refine h.write hcw (writeMeta w m e) e ?_ (fun c' p hp => (he c' p hp).imp id (·.2)) hg hobj
+  intro c' kid l hget
+  rw [hl] at hget
+  split at hget
+  · by_cases hk : kid = m.kid
+    · subst hk
+      rw [assocGet_assocSet_same] at hget
+      cases hget; exact writeMeta_kid w m e
+    · rw [assocGet_assocSet_other _ _ _ _ hk] at hget
+      exact h.aliasKid c kid l hget
+  · exact h.aliasKid c' kid l hget
 
 end AsherahVerif.Env
